@@ -2152,11 +2152,11 @@ package goatlang
 //@   invariant m != nil && (cap(p) == 0 || isfresh(arr(p)))
 //@ func (*structT).SafeStr
 //@   property C14
-//@   requires s != nil && s.Lookup != nil
+//@   requires s != nil && s.Lookup != nil && rh(s.Fields)
 //@   allocates elems(string)
 //@   callsite#bounded (Value).safeStr: arg_v.t.isSafeStr()
 //@ func (*structT).SafeStr loop 0
-//@   invariant s != nil && (cap(items) == 0 || isfresh(arr(items)))
+//@   invariant s != nil && (cap(items) == 0 || isfresh(arr(items))) && rh(s.Fields)
 //@ func sprint
 //@   inline
 //@ func vaSprint
